@@ -173,6 +173,7 @@ func cmdCheck(args []string) int {
 		name  string
 		parts []part
 		wall  float64
+		aux   bool
 	}
 	var results []stepResult
 	var harnessErrs []string
@@ -324,6 +325,10 @@ func cmdCheck(args []string) int {
 					}
 				}
 				env = append(env, "GODEBUG="+godebug)
+				if st.Race {
+					// reports go to files the harness reads at the end; the run itself continues
+					env = append(env, "GORACE=halt_on_error=0 exitcode=0 log_path="+filepath.Join(rdir, "racelog"))
+				}
 				if replay != "" {
 					rf := filepath.Join(rdir, "replay.json")
 					os.WriteFile(rf, replaySpec.Replay, 0o644)
@@ -374,7 +379,7 @@ func cmdCheck(args []string) int {
 				harnessErrs = append(harnessErrs, fmt.Sprintf("step %s shard %d: %s", st.Name, i, he))
 			}
 		}
-		results = append(results, stepResult{st.Name, parts, time.Since(sstart).Seconds()})
+		results = append(results, stepResult{st.Name, parts, time.Since(sstart).Seconds(), st.Race})
 	}
 
 	// merge
@@ -426,19 +431,23 @@ func cmdCheck(args []string) int {
 				info[k] = v
 			}
 		}
-		tot.Evaluations += sp.Evaluations
-		tot.DistinctNontrivial += sp.DistinctNontrivial
-		tot.States += sp.States
-		tot.Transitions += sp.Transitions
-		tot.TracesValidated += sp.TracesValidated
-		tot.Exhaustive = tot.Exhaustive && sp.Exhaustive
+		if !r.aux {
+			// an auxiliary step (the free-running race pass samples schedules by design) keeps its own
+			// line below; the totals and the exhaustive flag speak of the exploration steps only
+			tot.Evaluations += sp.Evaluations
+			tot.DistinctNontrivial += sp.DistinctNontrivial
+			tot.States += sp.States
+			tot.Transitions += sp.Transitions
+			tot.TracesValidated += sp.TracesValidated
+			tot.Exhaustive = tot.Exhaustive && sp.Exhaustive
+		}
 		for k, v := range sp.Counters {
 			tot.Counters[r.name+"."+k] = v
 		}
 		stepsOut = append(stepsOut, map[string]any{
 			"name": r.name, "evaluations": sp.Evaluations, "distinct_nontrivial": sp.DistinctNontrivial,
 			"states": sp.States, "transitions": sp.Transitions, "exhaustive": sp.Exhaustive,
-			"shards": len(r.parts), "wall_s": round1(r.wall),
+			"shards": len(r.parts), "wall_s": round1(r.wall), "auxiliary_sampling_step": r.aux,
 		})
 	}
 	cov["evaluations"] = tot.Evaluations
